@@ -175,6 +175,15 @@ impl Record {
         let start =
             u64::try_from(start).map_err(|e| io::Error::new(io::ErrorKind::InvalidInput, e))?;
 
+        // A start past the last base has no offset in this record; the computed position would
+        // lie in the line terminator or in the next record.
+        if start > 0 && start >= self.length {
+            return Err(io::Error::new(
+                io::ErrorKind::InvalidInput,
+                "invalid start bound",
+            ));
+        }
+
         let line_base_count = self.line_base_count.get();
         let line_width = self.line_width.get();
         let pos = self.position() + start / line_base_count * line_width + start % line_base_count;
